@@ -333,7 +333,8 @@ pub struct AbsMap {
 pub fn abs_map(cfg: GenCfg) -> impl Strategy<Value = AbsMap> {
   (
     vec(abs_seg(), 0..=8),
-    1u8..=3u8,
+    // 1-3 sources; now and then none at all (then no segment can be mapped)
+    prop_oneof![1 => Just(0u8), 14 => 1u8..=3u8],
     0u8..=3u8,
     prop::bool::weighted(0.25),
     0u8..5u8,
@@ -372,8 +373,12 @@ pub fn concretize_map(t: &str, am: &AbsMap, ascii: bool) -> MapSpec {
   let nsrc = am.nsrc as usize;
   let mut sources: Vec<String> =
     (0..nsrc).map(|i| format!("s{}.js", (am.src_base as usize + i) % 5)).collect();
+  // now and then a name that repeats the sourceRoot as its own first directory ("rt" + "rt/s0.js")
+  if am.src_base == 2 && nsrc >= 1 && matches!(am.root, 1 | 2) && am.nnames % 2 == 0 {
+    sources[0] = format!("rt/{}", sources[0]);
+  }
   // now and then a name of another shape: absolute, with directories, a URL, or empty
-  if am.src_base == 3 && am.root % 2 == 1 {
+  if nsrc >= 1 && am.src_base == 3 && am.root % 2 == 1 {
     let odd = ["/abs/s.js", "dir/sub/s.js", "http://h/s.js", "../up.js", ""];
     let k = (am.nnames as usize + nsrc) % odd.len();
     sources[0] = odd[k].to_string();
@@ -383,8 +388,18 @@ pub fn concretize_map(t: &str, am: &AbsMap, ascii: bool) -> MapSpec {
     let first = sources[0].clone();
     *sources.last_mut().unwrap() = first;
   }
+  // names: "nm<i>", or (every other map) words of the text alphabet, so that a name can really be the text
+  // found at an original position (the combined-map rule keeps an outer name only then)
   let names: Vec<String> = (0..am.nnames as usize)
-    .map(|i| if am.dup_names { "nm0".to_string() } else { format!("nm{i}") })
+    .map(|i| {
+      if am.dup_names {
+        "nm0".to_string()
+      } else if am.src_base % 2 == 1 {
+        ["a", "fn", "xy"][i % 3].to_string()
+      } else {
+        format!("nm{i}")
+      }
+    })
     .collect();
   let contents: Vec<String> = match am.content_mode {
     0 => vec![],
@@ -512,7 +527,7 @@ pub fn concretize_map(t: &str, am: &AbsMap, ascii: bool) -> MapSpec {
     }
     for (pi, a) in chosen {
       let (l, c) = posn[pi];
-      let orig = if a.mapped == 0 {
+      let orig = if a.mapped == 0 || nsrc == 0 {
         None
       } else {
         let src = idx(a.src, nsrc) as u32;
@@ -607,6 +622,13 @@ pub fn sms_inner(cfg: GenCfg) -> BoxedStrategy<Spec> {
     .prop_map(move |(text, am, orig, aim, k, which, give, remove, opos)| {
       let mut map = concretize_map(&text, &am, cfg.ascii);
       let name = format!("g{k}.js");
+      if map.sources.is_empty() {
+        // the outer map of a combined source lists at least the inner source
+        map.sources.push(String::new());
+        if !map.contents.is_empty() {
+          map.contents.push(String::new());
+        }
+      }
       let w = idx(which, map.sources.len());
       // the outer map is written relative to no root for the inner source to be found by name
       map.root = None;
@@ -622,6 +644,7 @@ pub fn sms_inner(cfg: GenCfg) -> BoxedStrategy<Spec> {
       oall.push(oend);
       if !am.wild {
         let mut n = 0;
+        let mut last_inner: Option<(u32, u32)> = None;
         for s in map.segs.iter_mut() {
           if let Some(o) = s.orig.as_mut() {
             if o.src as usize == w {
@@ -629,6 +652,14 @@ pub fn sms_inner(cfg: GenCfg) -> BoxedStrategy<Spec> {
                 let (l, c) = oall[idx(*ps, oall.len())];
                 o.line = l;
                 o.col = c + if *off % 7 == 0 { 1 + (*off as u32 >> 14) } else { 0 };
+                // now and then exactly where the previous segment into the inner source pointed
+                if *off % 5 == 1 {
+                  if let Some((pl, pc)) = last_inner {
+                    o.line = pl;
+                    o.col = pc;
+                  }
+                }
+                last_inner = Some((o.line, o.col));
               }
               n += 1;
             }
@@ -654,6 +685,70 @@ pub fn sms_inner(cfg: GenCfg) -> BoxedStrategy<Spec> {
         (true, _) => Some(orig.clone()),
       };
       Spec::SmsInner { text, name, map, original, inner, remove }
+    })
+    .boxed()
+}
+
+/// A SourceMapSource whose first line is longer than 64 KiB (30 000 - 70 000 characters of 1-3 bytes), with
+/// consistent segments spread over the whole line, bare or under one wrapper: table sizes, offsets and
+/// counters that fit 16 bits in every test text do not here.
+pub fn huge_line_tree() -> BoxedStrategy<Spec> {
+  (0u8..3u8, 30_000usize..70_000, vec((any::<u16>(), 0u8..4u8), 1..=6), 0u8..5u8, any::<bool>())
+    .prop_map(|(kind, n, marks, wrap, second_line)| {
+      let ch = ["é", "€", "a"][kind as usize];
+      let mut text = ch.repeat(n);
+      text.push('\n');
+      if second_line {
+        text.push_str("zz;\n");
+      }
+      // columns in characters, sorted, distinct
+      let mut cols: Vec<(u32, u8)> = marks.into_iter().map(|(sel, m)| ((((sel as usize) * n) >> 16) as u32, m)).collect();
+      cols.push((0, 1));
+      cols.sort_by_key(|c| c.0);
+      cols.dedup_by_key(|c| c.0);
+      let segs = cols
+        .into_iter()
+        .map(|(col, m)| Seg { line: 1, col, orig: if m == 0 { None } else { Some(Orig { src: 0, line: 1 + (m as u32), col: m as u32, name: None }) } })
+        .collect();
+      let map = MapSpec { segs, sources: vec!["long.js".into()], contents: vec![], names: vec![], root: None, file: None, debug_id: None };
+      let sms = Spec::Sms { text, name: "g0.js".into(), map, full: None };
+      match wrap {
+        0 => sms,
+        1 => Spec::Cached(Box::new(sms)),
+        2 => Spec::Concat { how: 0, children: vec![sms, Spec::Raw("tail".into())] },
+        3 => Spec::Concat { how: 2, children: vec![Spec::Orig { text: "head;".into(), name: "f0.js".into() }, Spec::Cached(Box::new(sms))] },
+        _ => Spec::Replace { inner: Box::new(sms), repls: vec![Repl { start: ch.len() as u32, end: ch.len() as u32, content: "+".into(), name: None, enforce: 1 }] },
+      }
+    })
+    .boxed()
+}
+
+/// A stack of 2-3 ReplaceSources over one leaf (or a two-leaf ConcatSource): the innermost one gets several
+/// insertions at / beyond the end (they make multi-piece chunks), the ones above cut inside what is below.
+pub fn replace_stack(cfg: GenCfg) -> BoxedStrategy<Spec> {
+  (
+    vec(leaf(cfg), 1..=2),
+    vec((any::<u16>(), text(cfg.ascii, 3), 0u8..3u8), 1..=4),
+    repls_for(cfg, 3),
+    repls_for(cfg, 3),
+    proptest::option::weighted(0.6, repls_for(cfg, 3)),
+  )
+    .prop_map(move |(leaves, tail, r0, r1, r2)| {
+      let base = if leaves.len() == 1 { leaves.into_iter().next().unwrap() } else { Spec::Concat { how: 0, children: leaves } };
+      let t = model_text(&base);
+      let mut repls = concretize_repls(&t, &r0.0, &r0.1, false);
+      // insertions at the end and a little beyond it, in the order given
+      let end = t.len() as u32;
+      for (sel, content, e) in tail {
+        let p = end + (sel % 3) as u32;
+        repls.push(Repl { start: p, end: p, content, name: None, enforce: e });
+      }
+      let mut s = Spec::Replace { inner: Box::new(base), repls };
+      for r in [Some(r1), r2].into_iter().flatten() {
+        let t = model_text(&s);
+        s = Spec::Replace { inner: Box::new(s), repls: concretize_repls(&t, &r.0, &r.1, false) };
+      }
+      normalize(s, cfg)
     })
     .boxed()
 }
